@@ -268,6 +268,9 @@ func (fs LocalFileSystem) Copy(ctx context.Context, src, dst string, options *Co
 	if err := checkSrcDst(srcPath, dstPath); err != nil {
 		return false, err
 	}
+	if err := checkDstParent(dstPath); err != nil {
+		return false, err
+	}
 
 	if _, err := os.Stat(dstPath); err != nil {
 		if !os.IsNotExist(err) {
@@ -331,6 +334,24 @@ func checkSrcDst(srcPath, dstPath string) error {
 	return nil
 }
 
+// checkDstParent makes sure the collection that is to contain dstPath
+// exists, as required by RFC 4918 sections 9.8.5 and 9.9.4.
+func checkDstParent(dstPath string) error {
+	fi, err := os.Stat(filepath.Dir(dstPath))
+	if err != nil {
+		err = errFromOS(err)
+		if !internal.IsNotFound(err) {
+			return err
+		}
+	} else if !fi.IsDir() {
+		err = fmt.Errorf("parent is not a collection")
+	}
+	if err != nil {
+		return NewHTTPError(http.StatusConflict, err)
+	}
+	return nil
+}
+
 func (fs LocalFileSystem) Move(ctx context.Context, src, dst string, options *MoveOptions) (created bool, err error) {
 	srcPath, err := fs.localPath(src)
 	if err != nil {
@@ -346,6 +367,9 @@ func (fs LocalFileSystem) Move(ctx context.Context, src, dst string, options *Mo
 		return false, errFromOS(err)
 	}
 	if err := checkSrcDst(srcPath, dstPath); err != nil {
+		return false, err
+	}
+	if err := checkDstParent(dstPath); err != nil {
 		return false, err
 	}
 
